@@ -25,7 +25,9 @@ import (
 //     of the helper becomes `x, y = e…` followed by a jump behind the body (a labelled `switch { default: … }`
 //     that is left by `break L`), a tail call keeps the helper's returns;
 //   - a helper that is a single `return expr` is substituted as that expression wherever it is called
-//     (conditions included);
+//     (conditions included); so is a boolean predicate written as a chain of guards
+//     `if c1 { return false }; if c2 { return true }; return e`, which is the expression `!c1 && (c2 || e)`
+//     (exprFunc), so that the branch facts of its atoms are those of the written-out condition;
 //   - a call nested in the operands of a statement (`self.Set(to, other.h(from))`) is hoisted: a fresh
 //     result variable declared before the statement receives the helper's results;
 //   - a parameter (or receiver) whose argument is a plain variable and that the helper never assigns is
@@ -206,6 +208,84 @@ func c06ExprFunc(g *core.FuncInfo) ast.Expr {
 		return nil
 	}
 	return r.Results[0]
+}
+
+// c06GuardChains caches the boolean expression of predicate helpers written as a chain of guards.
+var c06GuardChains = map[*core.FuncInfo]ast.Expr{}
+
+// exprFunc: the result expression of a helper that is a single `return expr`, or of a boolean predicate
+// written as a chain of guards `if c1 { return false }; if c2 { return true }; return e`, which denotes
+// the expression `!c1 && (c2 || e)` (same evaluation order and short-circuiting as the statements). The
+// synthesised operators are typed bool in the private Info; their operands are the helper's own nodes.
+func (in *c06Inliner) exprFunc(g *core.FuncInfo) ast.Expr {
+	if e := c06ExprFunc(g); e != nil {
+		return e
+	}
+	if e, ok := c06GuardChains[g]; ok {
+		if e != nil {
+			in.typeChain(e)
+		}
+		return e
+	}
+	c06GuardChains[g] = nil
+	sig, _ := g.Obj.Type().(*types.Signature)
+	if sig == nil || sig.Results().Len() != 1 || !types.Identical(sig.Results().At(0).Type().Underlying(), types.Typ[types.Bool]) {
+		return nil
+	}
+	n := len(g.Body.List)
+	if n < 2 || n > 6 {
+		return nil
+	}
+	last, ok := g.Body.List[n-1].(*ast.ReturnStmt)
+	if !ok || len(last.Results) != 1 {
+		return nil
+	}
+	e := ast.Expr(&ast.ParenExpr{Lparen: last.Pos(), X: last.Results[0], Rparen: last.End()})
+	for i := n - 2; i >= 0; i-- {
+		is, isIf := g.Body.List[i].(*ast.IfStmt)
+		if !isIf || is.Init != nil || is.Else != nil || len(is.Body.List) != 1 {
+			return nil
+		}
+		r, isRet := is.Body.List[0].(*ast.ReturnStmt)
+		if !isRet || len(r.Results) != 1 {
+			return nil
+		}
+		v, isConst := core.ConstVal(g.Info(), r.Results[0])
+		if !isConst {
+			return nil
+		}
+		cond := &ast.ParenExpr{Lparen: is.Cond.Pos(), X: is.Cond, Rparen: is.Cond.End()}
+		switch v.String() {
+		case "true":
+			e = &ast.ParenExpr{Lparen: is.Pos(), X: &ast.BinaryExpr{X: cond, OpPos: is.Pos(), Op: token.LOR, Y: e}, Rparen: is.End()}
+		case "false":
+			e = &ast.ParenExpr{Lparen: is.Pos(), X: &ast.BinaryExpr{X: &ast.UnaryExpr{OpPos: is.Pos(), Op: token.NOT, X: cond}, OpPos: is.Pos(), Op: token.LAND, Y: e}, Rparen: is.End()}
+		default:
+			return nil
+		}
+	}
+	c06GuardChains[g] = e
+	in.typeChain(e)
+	return e
+}
+
+// typeChain records the type bool for the operators synthesised by exprFunc.
+func (in *c06Inliner) typeChain(e ast.Expr) {
+	if _, known := in.info.Types[e]; known {
+		return
+	}
+	in.info.Types[e] = types.TypeAndValue{Type: types.Typ[types.Bool]}
+	switch x := e.(type) {
+	case *ast.ParenExpr:
+		in.typeChain(x.X)
+	case *ast.UnaryExpr:
+		in.typeChain(x.X)
+	case *ast.BinaryExpr:
+		if x.Op == token.LAND || x.Op == token.LOR {
+			in.typeChain(x.X)
+			in.typeChain(x.Y)
+		}
+	}
 }
 
 func (in *c06Inliner) ident(name string, pos token.Pos, obj types.Object) *ast.Ident {
@@ -542,7 +622,7 @@ func (in *c06Inliner) expr(e ast.Expr, hoist *[]ast.Stmt, d int) ast.Expr {
 		if g := in.eligible(x, d); g != nil {
 			bs := in.bindings(x, g, args)
 			sig, _ := g.Obj.Type().(*types.Signature)
-			if ret := c06ExprFunc(g); ret != nil {
+			if ret := in.exprFunc(g); ret != nil {
 				if hoist != nil || in.allPlain(g, bs) {
 					binds := in.bind(x, g, bs)
 					if hoist != nil {
